@@ -1,4 +1,5 @@
 """C15 Queries are pure; only `ans` carries state between them.  DESIGN.md section 4, C15."""
+import re
 import cg
 import facts
 from facts import AnchorLost, ap_str, ap_calls, hir_walk
@@ -9,7 +10,7 @@ CTX = "loader::context::Context"
 # who may write which field of Context (all five crates). Anything else is a finding.
 WRITERS = {
     "registry": {("rink_core", "loader::load::load_defs"), ("rink_core", "loader::context::Context::load_dates")},
-    "temporaries": {("rink_core", "loader::load::load_defs"), ("rink_core", "loader::load::load_defs::{closure#1}")},
+    "temporaries": {("rink_core", "loader::load::load_defs")},
     "now": {("rink_core", "loader::context::Context::set_time"), ("rink_core", "loader::context::Context::update_time")},
     "previous_result": {("rink_core", "helpers::eval"), ("rink_js", "Context::eval"), ("rink_js", "Context::eval_tokens"),
                         # not an updater: the sandboxed service restores the copy of `ans` that the parent process keeps for it (the child
@@ -24,8 +25,8 @@ QUERY_ENTRIES = [("rink_core", "loader::context::Context::eval_query"), ("rink_c
 
 
 def writer_key(fn):
-    p = fn.path
-    # closures of load_defs count as load_defs' own code
+    # a closure is its parent's own code (and closure numbers shift whenever one is added before it)
+    p = re.sub(r"(::\{closure#\d+\})+$", "", fn.path)
     return (fn.crate, p)
 
 
